@@ -114,6 +114,10 @@ class SerializableBaseTypes(object):
     set_t    = 18
 
 def ispublic(cls, name):
+    # (a property is computed from the fields: it is not a field itself. a
+    # read only one made every decode raise AttributeError)
+    if isinstance(cls.__dict__.get(name), property):
+        return False
     return not name.startswith("_") and name != 'type_id' and not callable(getattr(cls, name))
 
 class SerializableType(type):
